@@ -189,7 +189,15 @@ class Ctx:
             if not os.path.exists(ml):
                 self.broken('build', 'extraction', 'no extracted model %s (run setup.sh)' % ml)
                 return None
-            if os.path.exists(exe) and all(os.path.getmtime(exe) >= os.path.getmtime(s) for s in srcs):
+            extra = [os.path.join(d, f) for f in os.listdir(d) if f.endswith('.ml') and f not in ('model.ml', 'driver.ml')]
+            if os.path.exists(exe) and all(os.path.getmtime(exe) >= os.path.getmtime(s) for s in srcs + extra):
+                return exe
+            if os.path.exists(os.path.join(d, 'build.sh')):
+                # oracles with extra modules / packages (zarith) bring their own build script
+                rc, out, err = sh(['sh', 'build.sh'], cwd=d, timeout=900)
+                if rc != 0 or not os.path.exists(exe):
+                    self.broken('build', 'oracle ' + name, txt(out)[-2000:] + txt(err)[-3000:])
+                    return None
                 return exe
             rc, out, err = sh('ocamlfind ocamlopt -O2 -w -a -package str -linkpkg model.mli model.ml driver.ml -o oracle 2>&1 || '
                               'ocamlfind ocamlopt -w -a -package str -linkpkg model.mli model.ml driver.ml -o oracle', cwd=d, timeout=600)
